@@ -237,11 +237,11 @@ Theorem line_tokens_ok ps ts o ps' c : LineToks ps ts o ps' -> Match c ps ->
   exists c', ptokens c PStart ts = ROk (c', PStart) /\ line_effect c o ps' c'.
 Proof.
   intros L M Hr. pose proof M as (Mo & Mc & Md & Ml & Mt & Mk).
-  destruct L as [ps|ps|ps n Hn|ps t tt Ht HTT|ps r own tc explicit ty rd ws HO HT HM HD HF].
+  destruct L as [ps|ps|ps n nt Hn HNT|ps t tt Ht HTT|ps r own tc explicit ty rd ws HO HT HM HD HF].
   - exists (set_rtype c None). split; [reflexivity|]. split; [exact M|cbn; now rewrite app_nil_r].
   - exists (set_rtype c None). split; [reflexivity|]. split; [exact M|cbn; now rewrite app_nil_r].
   - (* $ORIGIN *)
-    cbn [ptokens ptoken]. rewrite (name_parse_abs n None Hn). cbn [bind ptokens ptoken].
+    cbn [ptokens ptoken]. cbn [set_rtype c_origin]. rewrite Mo. rewrite (name_text_parse _ _ _ HNT Hn). cbn [bind ptokens ptoken].
     eexists. split; [reflexivity|]. split; [|cbn; now rewrite app_nil_r].
     repeat split; cbn; assumption.
   - (* $TTL *)
